@@ -504,3 +504,11 @@ func c09SameAll(got []vfRec, orig map[int64]vfRec) bool {
 	}
 	return true
 }
+
+func c09MsgBytes(r vfRec) []byte {
+	b, err := encode(r.msg())
+	if err != nil {
+		panic(err)
+	}
+	return b
+}
